@@ -6,7 +6,7 @@
 From Coq Require Import ZArith NArith List String Ascii Bool Lia.
 Require Import QV.Common.Outcome QV.Common.WText QV.Common.WBin64 QV.Model.WriterTypes QV.Gen.WriterTables QV.Model.Writers
                QV.Model.Text QV.Proofs.Writers QV.Proofs.Text QV.Proofs.TextRT QV.Proofs.TextLex QV.Proofs.TextLayout
-               QV.Proofs.TextRoundTrip.
+               QV.Proofs.TextRoundTrip QV.Proofs.TextLayoutRel QV.Proofs.TextRoundTripXyz.
 Import ListNotations.
 
 (* ------------------------------------------------------------------------------------------ *)
@@ -49,8 +49,20 @@ Theorem C07_atom_line_reads_back : forall w p v,
   lex_as (render_atom w p false false v) (KAtom (av_label v, dn p (av_x v), dn p (av_y v), dn p (av_z v))).
 Proof. exact lex_atom_line. Qed.
 
-(** xyz+ and strict xyz: the line filters return the written data for any number of atom lines (line level:
-    the character-level bridge of C07_roundtrip_psi4 is not repeated for these two formats) *)
+(** xyz+ (default atom / ghost formats), for every molecule and either unit: the xyz+ line filter applied to the
+    lines rendered by the xyz+ writer returns the written labels ("@" ghosts), printed coordinates, total charge and
+    multiplicity and the unit the count line announces.  Level of lines: the step from characters to lines
+    (proved for psi4 in C07_roundtrip_psi4) is not repeated for xyz+. *)
+Theorem C07_roundtrip_xyzplus_lines : forall cfg m ls kw w r,
+  s_lower (w_dtype cfg) = "xyz+"%string -> w_afmt cfg = None -> w_gfmt cfg = None ->
+  to_lines cfg m = Ok (ls, kw) -> unit_word_xyz (units_of e_xyzp cfg) = Some (w, r) -> xyzp_fits cfg m ->
+  exists atoms,
+    atoms_formatter "{elem}" "@{elem}" (factor_of e_xyzp cfg m) (m_atoms m) = Ok atoms
+    /\ parse_xyz_lines false (map (rl cfg) ls)
+       = Ok (result_xyz r (Some (dz (m_chg m), m_mult m)) (map (atomd_of (w_prec cfg)) atoms)).
+Proof. exact roundtrip_xyzplus_lines. Qed.
+
+(** the xyz+ and strict xyz line filters on ANY lines the recognisers accept, any number of atom lines *)
 Theorem C07_roundtrip_xyzplus_partial : forall l0 l1 ls uo q ms mu atoms,
   xyz1_match l0 = Some uo -> xyz2_match l1 = Some (q, ms) -> py_int ms = Ok mu ->
   Forall2 (fun l at_ => atom_match is_nucleus l = Some at_) ls atoms ->
@@ -123,6 +135,14 @@ Theorem C07_layout_line_padding_psi4 : forall L L',
   psi4_of_lines L' = psi4_of_lines L.
 Proof. exact layout_line_padding_psi4. Qed.
 
+(** Layout insensitivity as one relation (psi4): [layout_equiv] is the equivalence generated by the rewrites
+    white space around the text, a comment appended to a line (directly after a token or after blanks), a whole
+    comment line, a blank line inside a tidy text, blanks/tabs around the lines of a tidy text ([tidy]: comment-free,
+    first and last character not blank); related texts parse alike.  (Separators, keyword case and numerals are
+    the recogniser-level theorems above.) *)
+Theorem C07_layout_insensitive : forall t t', layout_equiv t t' -> parse "psi4" t = parse "psi4" t'.
+Proof. exact layout_insensitive. Qed.
+
 (** equivalent numerals: explicit "+", leading zero, any exponent letter *)
 Theorem C07_numeral_plus : forall s c r, s = String c r -> c_eqb c c_minus = false -> c_eqb c c_plus = false ->
   parse_number (String c_plus s) = parse_number s.
@@ -177,6 +197,13 @@ Example C07_ex_roundtrip :
   end.
 Proof. vm_compute. repeat split; reflexivity. Qed.
 
+Example C07_ex_layout :
+  layout_equiv ("He 0 0 1.25" ++ String nl "He 0 0 3") ("  " ++ ("He 0 0 1.25" ++ String c_hash ("c" ++ String nl "He 0 0 3")) ++ String nl "").
+Proof.
+  eapply LE_trans; [apply LE_step, (LS_comment "He 0 0 1.25" "c" "He 0 0 3"); vm_compute; reflexivity|].
+  apply LE_step, LS_outer; reflexivity.
+Qed.
+
 (** regression example of the repaired finding C07-comment-eats-char *)
 Example C07_ex_comment_after_token : parse "psi4" "He 0 0 1.25#c" = parse "psi4" "He 0 0 1.25" /\ comment_may_follow "He 0 0 1.25".
 Proof. split; vm_compute; reflexivity. Qed.
@@ -185,6 +212,7 @@ Print Assumptions C07_roundtrip_psi4.
 Print Assumptions C07_psi4_reader_on_fragment_blocks.
 Print Assumptions C07_number_reads_back.
 Print Assumptions C07_atom_line_reads_back.
+Print Assumptions C07_roundtrip_xyzplus_lines.
 Print Assumptions C07_roundtrip_xyzplus_partial.
 Print Assumptions C07_roundtrip_xyz_partial.
 Print Assumptions C07_total.
@@ -198,6 +226,7 @@ Print Assumptions C07_layout_keyword_case.
 Print Assumptions C07_psi4_text_of_lines.
 Print Assumptions C07_layout_blank_lines_psi4.
 Print Assumptions C07_layout_line_padding_psi4.
+Print Assumptions C07_layout_insensitive.
 Print Assumptions C07_numeral_plus.
 Print Assumptions C07_numeral_leading_zero.
 Print Assumptions C07_numeral_exponent_letter.
